@@ -296,7 +296,7 @@ for node_name in it: node_names
 //@ extract fn src/graph/creation.rs add_edge props=C01,C02,C03,C20 ty=Graph
 //@ if main
 //@ head
-    #[verifier::external_body] // proved-by-cases: the body is verified in the variants dm, ds, um, us of this unit
+    #[verifier::external_body] // proved-by-cases: the body is verified in the variants dm ds um us (full contract) and dmc dsc umc usc (core clauses only) of this unit
 //@ fi
 //@ rewrite
 -> Result<(), Error>
@@ -306,16 +306,16 @@ for node_name in it: node_names
     requires
         old(self).wf_nodes(),
         old(self).wf_estore(),
-//@ if dm
+//@ if dm dmc
         add_edge_case(*old(self), true, true),
 //@ fi
-//@ if ds
+//@ if ds dsc
         add_edge_case(*old(self), true, false),
 //@ fi
-//@ if um
+//@ if um umc
         add_edge_case(*old(self), false, true),
 //@ fi
-//@ if us
+//@ if us usc
         add_edge_case(*old(self), false, false),
 //@ fi
     ensures
@@ -333,12 +333,14 @@ for node_name in it: node_names
         ae_wf(*old(self), *edge, *final(self), r),
         // [C01.add_edge.store_effect, C02.history.add_edge_store_effect]
         ae_store(*old(self), *edge, *final(self), r),
+//@ if main dm ds um us
         // [C03.add_edge.traversal_effect]
         ae_traversal(*old(self), *edge, *final(self), r),
         // [C02.history.add_edge_index_sets_effect]
         ae_index(*old(self), *edge, *final(self), r),
         // [C02.history.add_edge_name_keyed_effect, C01.add_edge.name_keyed_store_effect]
         ae_names(*old(self), *edge, *final(self), r),
+//@ fi
 //@ after let edge_already_exists = self.get_edge_by_indexes(u_node_index, v_node_index).is_ok();
         let ghost g1 = *self;
         proof {
@@ -362,6 +364,7 @@ for node_name in it: node_names
         proof {
             // the store changed at the canonical key only: the list there is [ordered] or the old list plus ordered
             lemma_estore_after_store(g2, *self, ordered_edge_u, ordered_edge_v, ordered);
+//@ if main dm ds um us
             // index sets: node creation leaves them as they were (absent = empty); the entry(..).or_default().insert(..) calls add one member each
             assert forall|i: usize| g1.succ_set(i) == old(self).succ_set(i) && g1.pred_set(i) == old(self).pred_set(i) by {}
             assert(g1.successors_map@.contains_key(u_node_index) && g1.successors_map@.contains_key(v_node_index));
@@ -370,6 +373,8 @@ for node_name in it: node_names
                 (g1.succ_set(i).contains(x) || (i == u_node_index && x == v_node_index) || (!self.specs.directed && i == v_node_index && x == u_node_index)) by {}
             assert forall|i: usize, x: usize| #[trigger] self.pred_set(i).contains(x) ==
                 (g1.pred_set(i).contains(x) || (self.specs.directed && i == v_node_index && x == u_node_index)) by {}
+        
+//@ fi
         }
 //@ end
 
